@@ -580,6 +580,11 @@ def gen_plant(rng, g, cfg, name, power, heat, fuel, prices):
             if rng.random() < 0.6:
                 a['shutdown_ramp_upper_bounds'] = hi
         a['ramp_freq'] = g['freq']
+        if rng.random() < cfg.get('p_ramp_other_freq', 0.0):
+            # profiles given in another frequency than the grid's: interpolated (grid finer) or averaged (profile finer)
+            other = {'h': ['30min', '2h', '15min'], '30min': ['h', '15min'], '15min': ['h', '30min'], '2h': ['h', '30min']}.get(g['freq'])
+            if other:
+                a['ramp_freq'] = rng.choice(other)
         if rng.random() < 0.5:
             a['profile_as_array'] = True
         if rng.random() < cfg.get('p_cap_var', 0.5):
